@@ -251,6 +251,40 @@ func (c *Ctx) flagBitTables() {
 			c.R.Ok(ruleT1, skey, c.P.Pos(s.Pos()), "sets/clears exactly its own bits, all other bits are copies of the old byte")
 		}
 	}
+	// the fixed-header decoder validates the PUBLISH QoS on exactly the QoS bits
+	if hd := c.P.Func("message", "header", "decode"); hd != nil {
+		for _, call := range ir.Calls(hd) {
+			if !ir.IsFunc(call.Common(), pkgMessage, "ValidQos") {
+				continue
+			}
+			env := &bits.Env{IsFlags: isFlagsAddr}
+			v := env.Eval(call.Common().Args[0])
+			var bad, unk []string
+			for i := 0; i < bits.Width; i++ {
+				want := bits.Bit{K: bits.Zero}
+				if i < 2 {
+					want = bits.Bit{K: bits.Old, Idx: 1 + i}
+				}
+				if v[i] == want {
+					continue
+				}
+				if v[i].K == bits.Top {
+					unk = append(unk, fmt.Sprintf("bit %d is not determined", i))
+				} else {
+					bad = append(bad, fmt.Sprintf("bit %d is %s, expected %s", i, bitStr(v[i]), bitStr(want)))
+				}
+			}
+			key := "header.decode:ValidQos-argument-reads-bits(0x6)"
+			switch {
+			case len(bad) > 0:
+				c.R.Bad(ruleT1, key, c.P.InstrPos(call), "the QoS validated by the fixed-header decoder is not (flags >> 1) & 3 ("+joinStr(bad, "; ")+"): the DUP or RETAIN bit is taken for part of the QoS and well-formed PUBLISH packets (e.g. every retransmission with DUP=1) are rejected")
+			case len(unk) > 0:
+				c.R.Unknown(ruleT1, key, c.P.InstrPos(call), joinStr(unk, "; "))
+			default:
+				c.R.Ok(ruleT1, key, c.P.InstrPos(call), "ValidQos((flags >> 1) & 3)")
+			}
+		}
+	}
 	c.R.Count("flag getter/setter pairs", n)
 	c.R.Floor("flag getter/setter pairs", n, 9)
 }
